@@ -31,6 +31,8 @@ func (o Op) String() string {
 		return fmt.Sprintf("%s(%q)", o.K, o.P)
 	case "ResetOptionsTo":
 		return fmt.Sprintf("ResetOptionsTo(preset%d)", o.N)
+	case "ResetOptionsToOwn":
+		return map[int]string{0: "ResetOptionsTo(own Options())", 1: "ResetOptionsTo(list built from own values)"}[o.N]
 	case "AddQuery", "SetETag", "AddETag":
 		return fmt.Sprintf("%s(%s)", o.K, o.V)
 	}
@@ -303,6 +305,7 @@ func poolAlphabet(level string) []Op {
 	for n := 0; n < 4; n++ {
 		a = append(a, Op{K: "ResetOptionsTo", N: n})
 	}
+	a = append(a, Op{K: "ResetOptionsToOwn", N: 0}, Op{K: "ResetOptionsToOwn", N: 1})
 	// Clone: copy the edited message A into the second message B (created on first use, later
 	// reused without Reset); Swap: continue editing the other message; Reset: message reset + reuse.
 	a = append(a, Op{K: "Clone"}, Op{K: "Swap"}, Op{K: "Reset"})
